@@ -506,7 +506,7 @@ def stream_micro_refit(ctx, built, ntables, oracle=None, name="S-micro-refit"):
             if kd == "int": df2[c] = df2[c] * int(max(2, k)) + int(sh); numeric = True
             elif kd == "float": df2[c] = df2[c] * k + sh; numeric = True
             elif kd == "ts": df2[c] = df2[c] + pd.Timedelta(days=int(R.choice([400, 4000]))); numeric = True
-        t2 = dict(t, df=df2)
+        t2 = dict(t, df=df2, refit=True)      # the convertor objects were constructed for the first table: their round precision is that table's
         try:
             data2 = apply_convertors(convs, df2)
             F2 = Forest(t["ap"], t["bp"], UniquePidCountersFactory(), pd.DataFrame({"RowIndex": range(1, len(df2) + 1)}), data2)
